@@ -464,6 +464,69 @@ type c04TargetJ struct {
 	H chan<- int `inject:""`
 }
 
+// c04Emb: a struct that embeds another struct (with fields of its own, none tagged) in front of, between and
+// after its tagged fields: every tagged field gets the value of its own type, everything else stays.
+type c04EmbBase struct {
+	ID   int
+	Note c04NS
+}
+
+type c04EmbTail struct{ Z c04T2 }
+
+type c04Emb struct {
+	c04EmbBase
+	A c04T1 `inject:""`
+	N c04NS
+	c04EmbTail
+	B *c04T1 `inject:""`
+	F c04T2  `inject:""`
+	M int
+}
+
+func c04CheckApplyEmbedded(c c04Config) string {
+	inner, scopes, reg := c04Build(c)
+	t := &c04Emb{c04EmbBase: c04EmbBase{ID: 7, Note: "keep-note"}, N: "keep-N", c04EmbTail: c04EmbTail{Z: c04T2{"keep-Z"}}, M: 9}
+	var err error
+	var pan interface{}
+	func() {
+		defer func() { pan = recover() }()
+		err = inner.Apply(t)
+	}()
+	if pan != nil {
+		return fmt.Sprintf("Apply on a struct with embedded structs panicked: %v", pan)
+	}
+	if t.ID != 7 || t.Note != "keep-note" || t.N != "keep-N" || t.Z.Tag != "keep-Z" || t.M != 9 {
+		return fmt.Sprintf("Apply on a struct with embedded structs changed untagged fields: %+v", *t)
+	}
+	type field struct {
+		name string
+		ti   int
+		v    reflect.Value
+	}
+	fields := []field{{"A", 0, reflect.ValueOf(t.A)}, {"B", 1, reflect.ValueOf(t.B)}, {"F", 2, reflect.ValueOf(t.F)}}
+	missing := false
+	for _, f := range fields {
+		if len(c04Resolve(scopes, c04Types[f.ti])) == 0 {
+			missing = true
+		}
+	}
+	if missing {
+		if err == nil {
+			return "a tagged field of a struct with embedded structs cannot be resolved but Apply reported no error"
+		}
+		return ""
+	}
+	if err != nil {
+		return fmt.Sprintf("all tagged fields resolvable but Apply on a struct with embedded structs failed: %v", err)
+	}
+	for _, f := range fields {
+		if allowed := c04Resolve(scopes, c04Types[f.ti]); !c04Allowed(reg, allowed, f.v) {
+			return fmt.Sprintf("struct with embedded structs: field %s = %s, resolution allows %s", f.name, reg.id(f.v), c04Ids(reg, allowed))
+		}
+	}
+	return ""
+}
+
 func c04CheckApply(c c04Config, withJ bool) string {
 	inner, scopes, reg := c04Build(c)
 	type field struct {
@@ -1001,6 +1064,15 @@ func c04Run(r *core.Run) {
 						}
 					}
 				}
+				l.Evals++
+				l.Transitions++
+				l.Traces++
+				if bad := c04CheckApplyEmbedded(c); bad != "" {
+					l.Class("mismatch")
+					l.Violate("apply/embedded-structs", bad+" ["+c.String()+"]", c04Case{Config: c, What: "apply-embedded"})
+				} else {
+					l.Class("apply")
+				}
 				for _, withJ := range []bool{false, true} {
 					l.Evals++
 					l.Transitions++
@@ -1065,6 +1137,11 @@ func c04Replay(raw json.RawMessage) (bool, string) {
 			if b, _ := c04CheckInvoke(c.Config, c.Sig, c.Fast); b != "" {
 				return true, b
 			}
+		}
+		return false, ""
+	case "apply-embedded":
+		if b := c04CheckApplyEmbedded(c.Config); b != "" {
+			return true, b
 		}
 		return false, ""
 	case "apply":
